@@ -540,6 +540,14 @@ class Index:
                     raise
                 except Exception as e:
                     raise Unfoldable(str(e))
+            if fname in ('math.ldexp', 'ldexp') and len(expr.args) == 2:
+                import math
+                try:
+                    return math.ldexp(f(expr.args[0]), f(expr.args[1]))
+                except Unfoldable:
+                    raise
+                except Exception as e:
+                    raise Unfoldable(str(e))
             if isinstance(fn, ast.Attribute) and fn.attr == 'keys' and not expr.args:
                 v = f(fn.value)
                 if isinstance(v, dict):
